@@ -132,6 +132,8 @@ func runC05(c *Ctx) {
 	retentionScansUnfiltered(c, "R3")
 	treeListingsCoverWholeTree(c, "R5")
 	unpushedIncludesHead(c, "R5")
+	indexKeepsEveryPath(c, "R3")
+	gitDateHasNumericZone(c, "R5")
 	checkoutRetentionOnlyForce(c, "R3")
 	noFetchIncludeIn(c, "R3", "prune retains what the checkout and recent refs need on every path except those under lfs.fetchexclude", "prune", "pruneCommand")
 	// removals inside pruneDeleteFiles target ObjectPath(oid) of the listed oids
